@@ -1575,3 +1575,35 @@ Proof.
       * rewrite q_milli_cached_cpu, q_milli_cached_mem by lia. fold (zero_d a). lia.
     + intros R1 R2. specialize (Sc R1). specialize (Sm R2). unfold zero_d. lia.
 Qed.
+
+Lemma region_needed_small r c t : (0 <= r)%Z -> (0 < c)%Z -> (0 < t)%Z -> res_region r c = true ->
+  (8 * nodes_needed_exact r c t < 9007199254740992)%Z.
+Proof.
+  intros Hr Hc Ht R. destruct (Z.eq_dec r 0) as [->|Hnz].
+  - assert (nodes_needed_exact 0 c t <= 0)%Z by (apply nodes_needed_least; try lia; unfold holds_at; nia). lia.
+  - destruct (res_region_split r c ltac:(lia) Hc R) as [G [r' [c' [HG [Er [Ec H800]]]]]].
+    change 9007199254740992%Z with (2 ^ 53)%Z.
+    apply (sufficient_region_upper r c t G r' c'); try assumption; try lia; nia.
+Qed.
+
+(* from zero inside the region: sufficient and at most one more *)
+Theorem model_from_zero_region a :
+  c05_from_zero a = true -> c05_cached a = true -> c05_region a = true ->
+  arith_percent a = PctOk f_max f_max /\ arith_delta a f_max f_max = DeltaOk (zero_d a)
+  /\ (c05_m_zero a <= zero_d a <= c05_m_zero a + 1)%Z.
+Proof.
+  intros Hz Hc Hreg.
+  assert (Hnn : c05_normal a = false).
+  { unfold c05_from_zero in Hz. unfold c05_normal. destruct (0 <? a_n a)%Z eqn:E; [lia|reflexivity]. }
+  unfold c05_region in Hreg. rewrite Hnn, Hz, Hc in Hreg. change (true && true) with true in Hreg. cbv iota in Hreg.
+  apply andb_prop in Hreg. destruct Hreg as [Hreg Rm]. apply andb_prop in Hreg. destruct Hreg as [Hr Rc].
+  assert (Hr' : c05_zero_ranges a = true) by exact Hr.
+  unfold c05_zero_ranges, in_range63, two63, two31 in Hr.
+  assert (Hcm : (0 < a_cmem a)%Z) by lia. assert (Ht : (0 < a_thr a)%Z) by lia.
+  assert (Hu : (8 * c05_m_zero a < 9007199254740992)%Z).
+  { rewrite (m_zero_milli a Hcm Ht).
+    pose proof (region_needed_small (a_cpu_req a) (a_ccpu a) (a_thr a) ltac:(lia) ltac:(lia) Ht Rc).
+    pose proof (region_needed_small (1000 * a_mem_req a) (1000 * a_cmem a) (a_thr a) ltac:(lia) ltac:(lia) Ht Rm). lia. }
+  destruct (model_from_zero a Hz Hr' Hu) as [Ep [Ed [B S]]].
+  split; [exact Ep|]. split; [exact Ed|]. specialize (S Rc Rm). lia.
+Qed.
